@@ -908,6 +908,8 @@ impl Check for C03 {
             Box::new(Shapes),
             Box::new(Strings { n: tier.pick(4, 5), alpha: SIGMA.to_vec(), label: "sigma" }),
             Box::new(Strings { n: tier.pick(5, 7), alpha: sub_alphabet(), label: "numeric-core" }),
+            // blanks that are not ASCII: no-break space, ideographic space, em space, line separator
+            Box::new(Strings { n: tier.pick(4, 5), alpha: vec!["\u{a0}", "\u{3000}", "\u{2003}", "\u{2028}", " ", "\t", "1", "A", "\"", ":", "?"], label: "unicode-blanks" }),
             Box::new(TokenSeqs { k: tier.pick(2, 3) }),
             Box::new(Mutants { pairs: tier == Tier::Thorough }),
             Box::new(Sessions { all: tier == Tier::Thorough }),
